@@ -335,11 +335,20 @@ func cmdCheck(args []string) int {
 			rc = 2
 		}
 	}
-	for _, u := range undecided {
-		fmt.Printf("UNDECIDED property=%s %s\n", *prop, u)
-		if rc == 0 {
-			rc = 2
-		}
+	// A function of the slice that left the verifiable subset (or whose contract no
+	// longer parses against it) has no discharged obligations any more: every
+	// obligation that held for it before is now undecided. That is reported as a
+	// violation of the named obligation "subset:<function>", without an input.
+	for i, u := range undecided {
+		nviol++
+		os.MkdirAll(repDir, 0755)
+		path := filepath.Join(repDir, fmt.Sprintf("subset_%d.json", i))
+		b, _ := json.MarshalIndent(map[string]interface{}{"property": *prop, "obligation": "subset:" + u, "verdict": "undecided",
+			"reproduced": false, "explanation": "the function can no longer be translated to verification conditions (construct outside vcgo's subset, or a contract that no longer matches the code); none of its obligations is discharged"}, "", " ")
+		os.WriteFile(path, append(b, '\n'), 0644)
+		fmt.Printf("failed obligation: subset:%s\n", u)
+		fmt.Printf("VIOLATION property=%s replay=%s no-failing-input-found\n", *prop, path)
+		rc = 1
 	}
 	// evidence
 	var tb []string
